@@ -152,4 +152,14 @@ Format(private, list) ==
 FormatH(private, list) ==
   FoldLeft(LAMBDA acc, b4 : acc \o <<Slash>> \o FormatIndexH(b4),
            IF private THEN <<109>> ELSE <<77>>, list)
+\* ---- what a path MEANS to the wallet (purpose, coin, chain slots); used for choosing the SLIP-132 flavour
+B4(n) == <<0, 0, 0, n>>                       \* small numbers only
+Slot(list, j) == IF Len(list) >= j THEN list[j] ELSE <<>>
+PathProps(list) ==
+  LET purpose == Slot(list, 1)  coin == Slot(list, 2)  chain == Slot(list, 4)
+      b44 == purpose = Harden(B4(44))  b49 == purpose = Harden(B4(49))  b84 == purpose = Harden(B4(84))
+  IN [bip44 |-> b44, bip49 |-> b49, bip84 |-> b84,
+      mainnet |-> coin = Harden(B4(0)), testnet |-> coin = Harden(B4(1)),
+      external |-> chain = B4(0),
+      bip |-> IF b49 THEN 49 ELSE IF b84 THEN 84 ELSE 44]      \* anything else is treated as plain BIP32/44
 =============================================================================
